@@ -295,16 +295,29 @@ def check_signature_fn(ck, fi):
     st = q.enclosing_stmt(pm, mac)
     if isinstance(st, ast.Assign) and len(st.targets) == 1 and isinstance(st.targets[0], ast.Name):
         mac_name = st.targets[0].id
-    ok_ret = False
-    if len(rets) == 1 and rets[0].value is not None:
-        v = rets[0].value
-        if isinstance(v, ast.Subscript) and isinstance(v.slice, ast.Slice) and v.slice.lower is None and q.unparse(v.slice.upper) == "-1" and isinstance(v.value, ast.Call) and q.call_attr(v.value) == "b2a_base64":
-            inner = v.value.args[0] if v.value.args else None
-            ok_ret = isinstance(inner, ast.Call) and q.call_attr(inner) == "digest" and (q.receiver(inner) == mac_name or inner.func.value is mac)
-        elif isinstance(v, ast.Call) and q.call_attr(v) in ("b64encode", "standard_b64encode") and v.args:
-            inner = v.args[0]
-            ok_ret = isinstance(inner, ast.Call) and q.call_attr(inner) == "digest" and (q.receiver(inner) == mac_name or inner.func.value is mac)
-    ck.ob("C48.hmac-sha1", sig_fi, rets[0] if rets else fi.node, ok_ret, "the signature is the base64 encoding of the MAC digest (no trailing newline)")
+    if len(rets) != 1 or rets[0].value is None:
+        raise AnalysisError("%s: the MAC function is not a single `return <encoding of the digest>`" % fi.qualname)
+    v = resolve_local(fi, rets[0].value)
+
+    def is_digest(x):
+        x = resolve_local(fi, x)
+        return isinstance(x, ast.Call) and q.call_attr(x) == "digest" and not x.args and (q.receiver(x) == mac_name or x.func.value is mac)
+
+    ok_ret = None  # None = shape not recognised
+    if isinstance(v, ast.Subscript) and isinstance(v.slice, ast.Slice) and isinstance(v.value, ast.Call) and q.call_attr(v.value) == "b2a_base64" and v.value.args and is_digest(v.value.args[0]):
+        ok_ret = v.slice.lower is None and v.slice.step is None and v.slice.upper is not None and q.unparse(v.slice.upper) == "-1"
+    elif isinstance(v, ast.Call) and q.call_attr(v) == "b2a_base64" and v.args and is_digest(v.args[0]):
+        nl = q.kwarg(v, "newline")
+        ok_ret = nl is not None and q.is_const(nl, False)  # without newline=False the trailing "\n" is part of the signature
+    elif isinstance(v, ast.Call) and q.call_attr(v) in ("b64encode", "standard_b64encode") and v.args and is_digest(v.args[0]):
+        ok_ret = True
+    elif isinstance(v, ast.Call) and q.call_attr(v) in ("hexdigest",) and (q.receiver(v) == mac_name):
+        ok_ret = False
+    elif isinstance(v, ast.Call) and q.call_attr(v) in ("strip", "rstrip") and isinstance(v.func.value, ast.Call) and q.call_attr(v.func.value) == "b2a_base64" and v.func.value.args and is_digest(v.func.value.args[0]):
+        ok_ret = True
+    if ok_ret is None:
+        raise AnalysisError("%s: how the digest is encoded is not recognised (%s)" % (fi.qualname, q.unparse(v)[:80]))
+    ck.ob("C48.hmac-sha1", sig_fi, rets[0], ok_ret, "the signature is the base64 encoding of the MAC digest (no trailing newline)")
     if back is not None:
         k_e, m_e = back(k_e), back(m_e)
     fi = sig_fi
@@ -345,32 +358,85 @@ def check_signature_fn(ck, fi):
     e_method, e_url, e_params = elems
     e_method = _resolve(fi, e_method)
     ck.ob("C48.base-string", ofi, e_method, isinstance(e_method, ast.Call) and q.call_attr(e_method) == "upper" and q.receiver(e_method) == p_method, "first component: the HTTP method, upper-cased")
-    # URL
+    # URL: every piece is resolved to a component of urlparse(url) (tuple position or attribute), a constant, or unknown
     u = _resolve(fi, e_url)
     parts = _flatten_add(u)
-    unpack = [n for n in own_nodes(fi.node) if isinstance(n, ast.Assign) and isinstance(n.targets[0], ast.Tuple) and len(n.targets[0].elts) == 3 and all(isinstance(t, ast.Name) for t in n.targets[0].elts)]
-    ok_url = False
-    why = "unrecognised"
-    if len(unpack) == 1:
-        sch, net, pth = (t.id for t in unpack[0].targets[0].elts)
-        v = unpack[0].value
-        src_ok = False
-        if isinstance(v, ast.Subscript) and isinstance(v.slice, ast.Slice) and v.slice.lower is None and q.unparse(v.slice.upper) == "3":
-            base = _resolve(fi, v.value)
-            src_ok = isinstance(base, ast.Call) and q.call_attr(base) in ("urlparse", "urlsplit") and base.args and q.dotted(base.args[0]) == p_url
-        shape = []
-        for x in parts:
-            if isinstance(x, ast.Constant):
-                shape.append(("const", x.value))
-            elif isinstance(x, ast.Call) and q.call_attr(x) == "lower" and not x.args:
-                shape.append(("lower", q.receiver(x)))
-            elif isinstance(x, ast.Name):
-                shape.append(("raw", x.id))
-            else:
-                shape.append(("?", q.unparse(x)))
-        ok_url = src_ok and shape == [("lower", sch), ("const", "://"), ("lower", net), ("raw", pth)]
-        why = "source-ok=%s shape=%s" % (src_ok, shape)
-    ck.ob("C48.url-normalized", ofi, u, ok_url, "second component: scheme.lower() + '://' + authority.lower() + path of the request URL, query and fragment excluded (%s)" % why, construct="url " + q.unparse(u))
+    COMP = {"scheme": 0, "netloc": 1, "path": 2, "params": 3, "query": 4, "fragment": 5}
+
+    def parsed_url(x):
+        x = _resolve(fi, x)
+        return isinstance(x, ast.Call) and q.call_attr(x) in ("urlparse", "urlsplit") and x.args and q.dotted(x.args[0]) == p_url
+
+    def component(x):
+        """index of the urlparse component the expression denotes, else None"""
+        if isinstance(x, ast.Attribute) and x.attr in COMP and parsed_url(x.value):
+            return COMP[x.attr]
+        if isinstance(x, ast.Subscript) and parsed_url(x.value):
+            try:
+                i = q.fold(x.slice, {})
+                return i if isinstance(i, int) and 0 <= i < 6 else None
+            except q.NotFoldable:
+                return None
+        if isinstance(x, ast.Name):
+            for n in own_nodes(fi.node):
+                if isinstance(n, ast.Assign) and isinstance(n.targets[0], ast.Tuple) and all(isinstance(t, ast.Name) for t in n.targets[0].elts):
+                    names = [t.id for t in n.targets[0].elts]
+                    if x.id in names and len(_defs(fi, x.id)) == 1:
+                        v_ = n.value
+                        if isinstance(v_, ast.Subscript) and isinstance(v_.slice, ast.Slice) and v_.slice.lower is None and v_.slice.step is None and parsed_url(v_.value):
+                            try:
+                                up = q.fold(v_.slice.upper, {}) if v_.slice.upper is not None else 6
+                            except q.NotFoldable:
+                                return None
+                            if up == len(names):
+                                return names.index(x.id)
+                        elif parsed_url(v_) and len(names) == 6:
+                            return names.index(x.id)
+            d_ = unique_def(fi, x.id)
+            if d_ is not None:
+                return component(d_)
+        return None
+
+    shape = []
+
+    def pieces(x, lowered):
+        x = x if not isinstance(x, ast.Name) or component(x) is not None else _resolve(fi, x)
+        if isinstance(x, ast.BinOp) and isinstance(x.op, ast.Add):
+            pieces(x.left, lowered)
+            pieces(x.right, lowered)
+        elif isinstance(x, ast.JoinedStr):
+            for v_ in x.values:
+                if isinstance(v_, ast.FormattedValue):
+                    if v_.format_spec is not None or v_.conversion != -1:
+                        shape.append(("?", q.unparse(x)))
+                    else:
+                        pieces(v_.value, lowered)
+                else:
+                    pieces(v_, lowered)
+        elif isinstance(x, ast.Constant) and isinstance(x.value, str):
+            shape.append(("const", x.value.lower() if lowered else x.value))
+        elif isinstance(x, ast.Call) and q.call_attr(x) == "lower" and not x.args and isinstance(x.func, ast.Attribute):
+            pieces(x.func.value, True)
+        elif component(x) is not None:
+            shape.append(("lower" if lowered else "raw", component(x)))
+        elif isinstance(x, ast.Name) and x.id == p_url:
+            shape.append(("whole-url", 0))
+        else:
+            shape.append(("?", q.unparse(x)))
+
+    pieces(u, False)
+    # adjacent constants merge
+    merged = []
+    for k_, v_ in shape:
+        if k_ == "const" and merged and merged[-1][0] == "const":
+            merged[-1] = ("const", merged[-1][1] + v_)
+        else:
+            merged.append((k_, v_))
+    shape = merged
+    if any(k == "?" for k, _v in shape):
+        raise AnalysisError("%s: normalised URL piece %s is not recognised" % (fi.qualname, [v_ for k, v_ in shape if k == "?"][0][:60]))
+    ok_url = shape == [("lower", 0), ("const", "://"), ("lower", 1), ("raw", 2)]
+    ck.ob("C48.url-normalized", ofi, u, ok_url, "second component: scheme.lower() + '://' + authority.lower() + path of the request URL, query and fragment excluded (resolved shape: %s)" % shape, construct="url " + q.unparse(u))
     # parameters
     pj = _join_parts(fi, _resolve(fi, e_params))
     if pj is None:
@@ -652,6 +718,7 @@ MUTANTS = [
     ("1.0a: path lower-cased too", _m("_oauth10a_signature", replace_stmt(lambda st: isinstance(st, ast.Assign) and _src(st).startswith("normalized_url ="), lambda st: [parse_stmt("normalized_url = (scheme + '://' + netloc + path).lower()")])), "C48.url-normalized"),
     ("1.0a: method not upper-cased", _m("_oauth10a_signature", replace_expr(lambda n: isinstance(n, ast.Call) and _src(n) == "method.upper()", lambda n: ast.Name(id="method", ctx=ast.Load()))), "C48.base-string"),
     ("1.0a: base string components joined unescaped", _m("_oauth10a_signature", replace_expr(lambda n: isinstance(n, ast.GeneratorExp) and _src(n.elt) == "_oauth_escape(e)", lambda n: ast.Name(id="base_elems", ctx=ast.Load()))), "C48.base-string"),
+    ("seeded C48-adv4: key parts quoted with the default safe='/'", _m("_oauth10a_signature", replace_expr(lambda n: isinstance(n, ast.Call) and _src(n.func) == "urllib.parse.quote" and n.keywords, lambda n: ast.Call(func=n.func, args=n.args, keywords=[]), limit=2)), "C48.key-parts-encoded"),
     ("1.0a: token secret not percent-encoded in the key", _m("_oauth10a_signature", replace_expr(lambda n: isinstance(n, ast.Call) and _src(n) == "urllib.parse.quote(token['secret'], safe='~')", lambda n: parse_expr("token['secret']"))), "C48.key-parts-encoded"),
     ("1.0a: key parts swapped", _m("_oauth10a_signature", _swap_key_parts), "C48.key"),
     ("_oauth_escape keeps '/' unescaped", _m("_oauth_escape", replace_expr(lambda n: isinstance(n, ast.Constant) and n.value == "~", lambda n: ast.Constant(value="/~"))), "C48.escape-unreserved"),
